@@ -98,6 +98,21 @@ def place_{where}_{sn}_{vl}(s: str{extra}) -> bool:
 def replay_place_{where}_{sn}_{vl}(s{hdr}):
     return replay_attr_place(s, {kl}, {vs}, {vl}, "{where}"{hdr})
 """)
+    # `|` inside links, templates, parameter references and parser functions
+    for ki, kn in enumerate(["link", "template", "arg", "parserfn"]):
+        for n_prev in (0, 1, 2):
+            out.append(f"""
+def vargs_{kn}_{n_prev}(txt: str) -> bool:
+    \"\"\"
+    pre: 1 <= len(txt) <= 2 and all(c in "ab =:" for c in txt)
+    post: _
+    \"\"\"
+    return vbar_args_step({ki}, {n_prev}, txt)
+
+
+def replay_vargs_{kn}_{n_prev}(txt):
+    return replay_vbar_args({ki}, {n_prev}, txt)
+""")
     # two attributes: one symbolic string  k1="v1"<sep>k2=v2  with pinned punctuation
     out.append('''
 def attr_two(s: str) -> bool:
@@ -258,6 +273,7 @@ def run(rep: C.Report) -> None:
             H,
             {
                 "^t_": dict(name="Ob2 table one-step lemmas (|-  |  !  ||  !!  |+  |})", functions=["parser.py:table_row_fn", "parser.py:table_cell_fn", "parser.py:table_hdr_cell_fn", "parser.py:double_vbar_fn", "parser.py:table_caption_fn", "parser.py:table_end_fn"], bounds="all table states with <= 2 closed cells of symbolic kind, optional open cell of symbolic kind with one symbolic content char, optional caption"),
+                "^vargs_": dict(name="Ob6 `|` inside a link / template / parameter reference / parser function closes the current argument (arguments accumulate in written order)", functions=["parser.py:vbar_fn"], bounds="4 node kinds x 0..2 earlier arguments x current argument text of 1..2 symbolic chars"),
                 "^place_": dict(name="Ob5 attributes written on a table, a row or a cell become that node's attribute map", functions=["parser.py:table_check_attrs", "parser.py:table_row_check_attrs", "parser.py:table_cell_fn (attribute separator)", "parser.py:check_for_attributes"], bounds="one attribute, name 1 char, value 1..2 (thorough 3) symbolic URL-safe chars, three quoting styles; data and header cells"),
                 "^attr_": dict(name="Ob1 parse_attrs returns exactly the written attribute map", functions=["parser.py:parse_attrs"], bounds=f"name 1..2 chars over [ab-], value 0..{2 if quick else 3} chars over URL-safe characters, double-quoted / single-quoted / bare; two attributes with symbolic separator"),
             },
